@@ -323,7 +323,8 @@ Proof.
     apply Forall_app. split.
     + destruct res as [|w k]; [apply Forall_cons; [apply d_ro; exact I|apply Forall_nil]|].
       apply disc_resolve. exact Hok.
-    + repeat (apply Forall_cons; [first [apply d_private | apply d_ro; exact I | apply d_atomic; exact I]|]).
+    + cbn [pooled_tunnel current app].
+      repeat (apply Forall_cons; [first [apply d_private | apply d_ro; exact I | apply d_atomic; exact I]|]).
       apply Forall_nil.
   - apply disc_resolve. exact Hok.
   - cbn [op_ok] in Hok. subst n. apply disc_update.
@@ -690,13 +691,13 @@ Definition get_a1 : request :=
   {| r_verb := VGet; r_header := []; r_path := [x2f; x61; x2f; x31]; r_query := []; r_body := false |}.
 
 Definition inplace : variant :=
-  {| err_inplace := true; rng_unlocked := false; shallow_handler := false; state_in_root := false |}.
+  {| err_inplace := true; rng_unlocked := false; shallow_handler := false; state_in_root := false; pooled_tunnel := false |}.
 Definition unlocked : variant :=
-  {| err_inplace := false; rng_unlocked := true; shallow_handler := false; state_in_root := false |}.
+  {| err_inplace := false; rng_unlocked := true; shallow_handler := false; state_in_root := false; pooled_tunnel := false |}.
 Definition shallow : variant :=
-  {| err_inplace := false; rng_unlocked := false; shallow_handler := true; state_in_root := false |}.
+  {| err_inplace := false; rng_unlocked := false; shallow_handler := true; state_in_root := false; pooled_tunnel := false |}.
 Definition rootstate : variant :=
-  {| err_inplace := false; rng_unlocked := false; shallow_handler := false; state_in_root := true |}.
+  {| err_inplace := false; rng_unlocked := false; shallow_handler := false; state_in_root := true; pooled_tunnel := false |}.
 
 (* D24 as pinned: two requests whose resource method returns the same error object with a nil Message *)
 Theorem shared_error_inplace_would_conflict :
@@ -752,6 +753,32 @@ Proof.
   exists (wr (CRoot (Copy 0))), (wr (CRoot (Copy 0))).
   split; [vm_compute; tauto|]. split; [vm_compute; tauto|].
   split; [reflexivity|]. split; [left; reflexivity|reflexivity].
+Qed.
+
+Definition pooled : variant :=
+  {| err_inplace := false; rng_unlocked := false; shallow_handler := false; state_in_root := false; pooled_tunnel := true |}.
+
+(* EncodeTunnelledQuery assembling request bodies in a recycled package-level buffer (sync.Pool: Get / Put are atomic, the
+   BYTES are plain): any two client calls conflict - one is still reading its body while the other writes its own *)
+Theorem pooled_tunnel_buffer_would_conflict : forall c1 c2 r1 r2 res1 res2,
+  exists a b, In a (call_fp pooled c1 r1 res1) /\ In b (call_fp pooled c2 r2 res2) /\ conflict a b.
+Proof.
+  intros c1 c2 r1 r2 res1 res2. exists (rd CTunnelBuf), (wr CTunnelBuf).
+  assert (Hin : forall c r res x, x = rd CTunnelBuf \/ x = wr CTunnelBuf -> In x (call_fp pooled c r res)).
+  { intros c r res x Hx. unfold call_fp. cbn [pooled_tunnel pooled].
+    apply in_or_app. right. apply in_or_app. right. cbn [app In]. destruct Hx as [-> | ->]; tauto. }
+  split; [apply Hin; left; reflexivity|]. split; [apply Hin; right; reflexivity|].
+  split; [reflexivity|]. split; [right; reflexivity|reflexivity].
+Qed.
+
+(* ... while on the current code the body buffer is the call's own: no call ever touches CTunnelBuf *)
+Theorem tunnel_buffer_is_private : forall r o a, In a (footprint current r o) -> a_cell a <> CTunnelBuf.
+Proof.
+  intros r o a Hin Hc.
+  destruct (footprint_disc_ex r o a Hin) as [[n [u D]] | [_ [H | [p H]]]]; [|congruence|congruence].
+  destruct D; cbn [a_cell] in *; try discriminate Hc.
+  - rewrite Hc in H. destruct H.
+  - rewrite Hc in H. destruct H.
 Qed.
 
 (* the premise "the real accesses are among the modelled ones" is what the race-detector runs test; under it the
